@@ -114,6 +114,19 @@ def gen_cases(seed, chunk, n, tier):
                     orc = "fused and blockwise strategies differ (rank, indices or values)"
                 elif not same_value(cb, ca):
                     orc = "auto and blockwise strategies differ"
+                # call history: the conjugated operands contracted afterwards (fused vs blockwise)
+                if orc is None and xa:
+                    try:
+                        xc, yc = env2[an].conj(), env2[bn].conj()
+                        cfc = sr.tensordot(xc, yc, (tuple(xa), tuple(xb)), mode="fused", preserve_array=True)
+                        cbc = sr.tensordot(xc, yc, (tuple(xa), tuple(xb)), mode="blockwise", preserve_array=True)
+                        if not same_value(cbc, cfc):
+                            orc = ("after contracting (a, b), the fused contraction of their conjugates differs from "
+                                   "the blockwise one (rank, indices or values)")
+                        elif oracle.py_valid(cfc):
+                            orc = "fused contraction of the conjugated operands is invalid: " + str(oracle.py_valid(cfc))
+                    except Exception as e:  # noqa
+                        orc = f"contraction of the conjugated operands raised {type(e).__name__}: {e}"
                 # explicit route: align, fuse contracted legs, contract the fused pair
                 if orc is None and len(xa) >= 2:
                     try:
